@@ -25,6 +25,7 @@ var (
 	fLog      = flag.Bool("bsim.log", false, "keep full event logs in results")
 	fStopBad  = flag.Bool("bsim.stop-on-bad", true, "stop after the first run with a violation or harness error")
 	fTapeOut  = flag.Bool("bsim.tape", false, "keep consumed tapes in results (always kept for runs with violations)")
+	fSpecs    = flag.String("bsim.specs", "", "file with one JSON spec per line: run each (used by the bounded enumeration)")
 )
 
 func TestMain(m *testing.M) {
@@ -44,7 +45,7 @@ func parseRange(s string) (uint64, uint64) {
 
 // TestWorker runs a range of seeds of one property's scenario and writes results as JSON lines.
 func TestWorker(t *testing.T) {
-	if *fProp == "" && *fReplay == "" {
+	if *fProp == "" && *fReplay == "" && *fSpecs == "" {
 		t.Skip("no -bsim.prop")
 	}
 	var w *bufio.Writer
@@ -82,6 +83,32 @@ func TestWorker(t *testing.T) {
 		spec.Replay = true
 		r := RunSpec(t, spec, *fLog)
 		emit(r)
+		return
+	}
+	if *fSpecs != "" {
+		f, err := os.Open(*fSpecs)
+		if err != nil {
+			t.Fatal(err)
+		}
+		defer f.Close()
+		sc := bufio.NewScanner(f)
+		sc.Buffer(make([]byte, 1<<20), 1<<26)
+		for sc.Scan() {
+			var spec core.Spec
+			if err := json.Unmarshal(sc.Bytes(), &spec); err != nil {
+				t.Fatal(err)
+			}
+			spec.Replay = true
+			r := RunSpec(t, spec, *fLog)
+			bad := len(r.Violations) > 0 || r.Harness != ""
+			emit(r)
+			if bad && *fStopBad {
+				if w != nil {
+					w.Flush()
+				}
+				os.Exit(10)
+			}
+		}
 		return
 	}
 	a, b := parseRange(*fSeeds)
